@@ -581,7 +581,7 @@ class ManifestContext:
                 if tm < earliest_available:
                     continue
                 drop_delta = tm - availabilityStartTime
-                drop_seg = int(scale_timedelta(
+                drop_seg = representation.start_number + int(scale_timedelta(
                     drop_delta, representation.timescale,
                     representation.segment_duration))
             if code is None:
